@@ -2,10 +2,37 @@
 
 package sio
 
-import "github.com/karagenc/socket.io-go/internal/vhook"
+import (
+	"time"
+
+	eio "github.com/karagenc/socket.io-go/engine.io"
+	eioparser "github.com/karagenc/socket.io-go/engine.io/parser"
+	"github.com/karagenc/socket.io-go/internal/vhook"
+)
 
 // Control of the verification hooks (build tag `verif` only).
 
 func VerifSetSink(f func(name string, kv []any)) { vhook.SetSink(f) }
 
 func VerifSetGate(f func(point string, key any)) { vhook.SetGate(f) }
+
+// VerifPacketQueue exposes the unexported packet queue to the verification harness.
+type VerifPacketQueue struct{ pq *packetQueue }
+
+func VerifNewPacketQueue() *VerifPacketQueue { return &VerifPacketQueue{pq: newPacketQueue()} }
+
+func (q *VerifPacketQueue) Key() any                          { return q.pq }
+func (q *VerifPacketQueue) Add(packets ...*eioparser.Packet)  { q.pq.add(packets...) }
+func (q *VerifPacketQueue) Get() []*eioparser.Packet          { return q.pq.get() }
+func (q *VerifPacketQueue) Reset()                            { q.pq.reset() }
+func (q *VerifPacketQueue) Close()                            { q.pq.close() }
+func (q *VerifPacketQueue) PollAndSend(s eio.Socket)          { q.pq.pollAndSend(s) }
+func (q *VerifPacketQueue) WaitForDrain(d time.Duration) bool { return q.pq.waitForDrain(d) }
+func (q *VerifPacketQueue) Len() int {
+	q.pq.mu.Lock()
+	defer q.pq.mu.Unlock()
+	return len(q.pq.packets)
+}
+func (q *VerifPacketQueue) Poll() (packets []*eioparser.Packet, ok, closed bool) {
+	return q.pq.poll()
+}
